@@ -10,7 +10,7 @@
 From Coq Require Import List Bool Arith ZArith.
 Import ListNotations.
 From Stab.model Require Import Base StatusM Readiness StageStat Engine.
-From Stab.proofs Require Import EngineLegal RecoverP EngineEx.
+From Stab.proofs Require Import EngineLegal RecoverP EngineEx SynP.
 
 Theorem C10_sweep_only_pushes : forall s,
   w_stages (recover s) = w_stages s /\ w_status (recover s) = w_status s /\ w_canceled (recover s) = w_canceled s
@@ -30,6 +30,15 @@ Proof.
   apply legal_quiet. apply quiet_pushes.
 Qed.
 
+(* a planned RUNNING stage that waits for unfinished before stages gets NO message from the sweep (its before stages
+   are swept as stages of their own): the sweep cannot run the stage's tasks ahead of them *)
+Theorem C10_sweep_leaves_waiting_parent : forall s i st,
+  s_status st = RUNNING -> s_plan_pending st = false ->
+  (forall tk, In tk (s_tasks st) -> t_status tk <> RUNNING) ->
+  existsb (fun j => negb (is_complete (status_at s j))) (kids s i OwnBefore) = true ->
+  recover_stage s i st = [].
+Proof. exact recover_leaves_waiting_parent. Qed.
+
 (* non-vacuity: sweeps injected mid-run (twice in a row) do push messages, and the outcome / execution count is
    the same as without them *)
 Example C10_witness :
@@ -41,3 +50,4 @@ Proof. vm_compute. repeat split; auto. Qed.
 
 Print Assumptions C10_sweep_only_pushes.
 Print Assumptions C10_sweep_legal.
+Print Assumptions C10_sweep_leaves_waiting_parent.
